@@ -161,6 +161,9 @@ func c16FinalSession(args []string, _ []byte) string {
 		if r.Err() == nil && got[i] != want {
 			return fmt.Sprintf("FAIL: request %d (target: %v) completed without error after %d of %d response frames (%s, parked at %s: %v)", i, r == target, got[i], want, spec.Close, spec.Park, didPark)
 		}
+		if r == target && spec.Paged && got[i] < 1 {
+			return fmt.Sprintf("FAIL: the first page of request %d had been handed over (Deliver returned nil) before the connection closed, but reading the request afterwards yields %d frames (Err=%v): a received page was discarded", i, got[i], r.Err())
+		}
 		if r != target && r.Err() == nil {
 			return fmt.Sprintf("FAIL: request %d never got a response and was completed without an error when the connection closed", i)
 		}
